@@ -78,7 +78,49 @@ TEMPLATES = [
     {"type": "object", "title": "foo_1", "properties": {"p": {"type": "object", "title": "Foo"}, "q": {"type": "object", "title": "foo", "required": ["z"]}}},
     {"type": ["object"], "title": "Single", "default": {}, "patternProperties": {"^x": {"type": "object", "title": "single"}}},
     {"oneOf": [{"type": "object", "title": "A", "properties": {"k": {"const": True}}}, {"type": "object", "title": "A", "properties": {"k": {"const": 1}}}], "not": {"required": ["zz"]}},
+    # recorded finding K23: a composition collapsing to Nothing() with a default
+    {"type": "object", "title": "T", "properties": {"p": {"oneOf": [False], "default": 2}, "q": {"allOf": [{}, False], "default": 10}}},
 ]
+
+
+def nothing_with_default(roots):
+    """finding predicate K23: some Nothing() in the tree carries a default (set by _parse_composition as a plain instance attribute)"""
+    from statham.schema.elements import Nothing, Element
+    from statham.schema.elements.meta import ObjectMeta
+    from statham.schema.constants import NotPassed
+    from statham.schema.property import _Property
+    seen, stack = set(), list(roots)
+    while stack:
+        x = stack.pop()
+        if id(x) in seen:
+            continue
+        seen.add(id(x))
+        if isinstance(x, _Property):
+            stack.append(x.element)
+            continue
+        if isinstance(x, (list, tuple)):
+            stack.extend(x)
+            continue
+        if isinstance(x, dict):
+            stack.extend(x.values())
+            continue
+        if isinstance(x, Nothing) and not isinstance(getattr(x, "default", NotPassed()), NotPassed):
+            return True
+        if isinstance(x, (Element, ObjectMeta)):
+            for attr in ("items", "additionalItems", "contains", "properties", "patternProperties", "additionalProperties",
+                         "propertyNames", "dependencies", "elements", "element"):
+                try:
+                    v = getattr(x, attr, None)
+                except Exception:  # noqa
+                    v = None
+                if isinstance(v, (Element, ObjectMeta, _Property, list, tuple, dict)):
+                    stack.append(v)
+                elif hasattr(v, "values") and not isinstance(v, (str, bytes)):
+                    try:
+                        stack.extend(list(v.values()))
+                    except Exception:  # noqa
+                        pass
+    return False
 
 
 def has_suffixed_title(j):
@@ -174,6 +216,7 @@ def run(tier, seed, replay=None):
                     g = ns.get(c.__name__)
                     if g is None or (g == c) is not True or (c == g) is not True:
                         res.violation(dict(payload, kind="oracle", class_name=c.__name__, module=text[:1500],
+                                           finding="C06-K23" if nothing_with_default(classes) else None,
                                            what="the class %s obtained by executing the generated source does not equal the parsed class" % c.__name__))
                         break
         res.sample({"schema": J0, "normal_form": J1} if len(json.dumps(J0)) < 400 else {"normal_form_keys": sorted(J1) if isinstance(J1, dict) else J1}, limit=3)
